@@ -27,6 +27,9 @@ def C01(prog: Program, run: Run, tier: str) -> None:
     run.notes.append("R-CRSGUARD table: " + "; ".join(f"{k}: {v}" for k, v in sorted(crsguard.TABLE.items())))
 
 
+PICKLE_MODULES = {"crs", "geom", "geobox", "roi", "types", "gridspec", "gcp", "math"}
+
+
 def C19(prog: Program, run: Run, tier: str) -> None:
     classes = None if tier == "thorough" else valueobj.VALUE_CLASSES
     run.add(
@@ -43,8 +46,15 @@ def C19(prog: Program, run: Run, tier: str) -> None:
         "objects whose id() is a cache key are pinned by a plain never-cleared dict cache; ORDER source/target "
         "pass-through transformer_to_crs -> _make_crs_transform -> Transformer.from_crs",
     )
+    run.add(
+        valueobj.rule_pickle_state(prog, None if tier == "thorough" else PICKLE_MODULES),
+        "R-PICKLE CLOSURE-STATE no class pickled by the default protocol stores a lambda / method-local function in "
+        "an instance attribute; GEOJSON-VARIANTS every GeoJSON reader on the path Geometry.__setstate__ -> __init__ "
+        "that requires `coordinates` also handles `geometries` (GeometryCollection)",
+    )
     run.floor("R-VALUEOBJ|", 45)
     run.floor("R-CACHE|", 18)
+    run.floor("R-PICKLE|", 10)
 
 
 def C06(prog: Program, run: Run, tier: str) -> None:
@@ -78,7 +88,7 @@ def C18(prog: Program, run: Run, tier: str) -> None:
 
 
 # ---------------------------------------------------------------------------------------------
-from .rules import axis, extra, forward, guards, rounding, specific  # noqa: E402
+from .rules import axis, extra, forward, generic, guards, rounding, specific  # noqa: E402
 
 AXIS_DESC = (
     "R-AXIS x/y axis-tag consistency: T1 tagged value in a slot of the opposite axis (Affine, xy_/yx_, BoundingBox, "
@@ -123,7 +133,8 @@ def C03(prog: Program, run: Run, tier: str) -> None:
     run.add(axis.rule_axis(prog, {"overlap", "roi"}), AXIS_DESC)
     run.add(_only(specific.rule_cast(prog, {"roi", "overlap"}), "roi:roi_from_points", "overlap:"), "R-CAST no unbounded float -> fixed-width int cast")
     run.add(guards.finite_filter(prog), "R-GUARDSEQ finite filter and empty case precede the envelope; result clipped per axis")
-    run.add(_only(guards.paste_eligibility(prog), "overlap:compute_reproject_roi"), "R-GUARDSEQ one read_shrink feeds zoom, affine and scale-up; paste verdict wiring")
+    run.add(_only(guards.paste_eligibility(prog), "overlap:compute_reproject_roi", "overlap:_can_paste"), "R-GUARDSEQ one read_shrink feeds zoom, affine and scale-up; paste verdict wiring; _can_paste tolerances in their own slots")
+    run.add(extra.shrink_side_agreement(prog), "R-SIBLING read-shrink rescaling composed on the side _can_paste validates")
     run.add(_fwd(prog, {"overlap"}), FWD_DESC)
     run.add(extra.point_transform(prog) + extra.relative_rois(prog) + extra.reproject_info_fields(prog),
             "R-GUARDSEQ point transform goes src.pix2wld -> (clamp) -> transformer(src->dst) -> dst.wld2pix, back swaps; envelopes mapped in the right "
@@ -196,6 +207,7 @@ def C09(prog: Program, run: Run, tier: str) -> None:
 
 def C10(prog: Program, run: Run, tier: str) -> None:
     run.add(guards.paste_eligibility(prog), "R-GUARDSEQ paste reported only behind all four eligibility guards, only on the same-CRS branch, with ttol/stol wired straight; one read_shrink")
+    run.add(extra.shrink_side_agreement(prog), "R-SIBLING the read-shrink rescaling is composed on the same side of the dst->src transform where _can_paste validates it and where compute_reproject_roi uses it")
     run.add(guards.snap_affine_guards(prog), "R-GUARDSEQ snap_affine passes rotated input through and writes components back to their slots with the right tolerances")
     run.add(_only(rounding.rule_round(prog, {"math", "overlap"}), "math:snap_affine", "math:maybe_int", "math:snap_scale", "overlap:_pick", "overlap:compute_axis"), ROUND_DESC)
     run.add(extra.warp_detour(prog), "R-EXHAUST pixels warped into a converted array are copied back; source/destination CRS and transform come from their own geobox")
@@ -217,6 +229,7 @@ def C12(prog: Program, run: Run, tier: str) -> None:
     run.add(_only(rounding.rule_round(prog, {"geobox", "geom", "roi"}), "geobox:GeoboxTiles", "geom:BoundingBox.round", "roi:Tiles.locate"), None)
     run.add(_only(axis.rule_axis(prog, {"geobox", "roi"}), "geobox:GeoboxTiles", "roi:Tiles.locate", "roi:VariableSizedTiles.locate"), AXIS_DESC)
     run.add(extra.tile_query(prog), "R-GUARDSEQ geometry queries filter with the extent of the tile at the same index; linear path maps each tile's own box through A, rounds outwards and stores under the same index; general path queries with the tile's own extent")
+    run.add(_only(guards.identity_shortcircuit(prog), "geobox:GeoBoxBase.footprint"), "R-GUARDSEQ the footprint used by the general path is densified by the projection call on every branch")
     run.floor("R-EMPTY|", 1)
     run.floor("R-AXIS|", 12)
 
@@ -290,3 +303,48 @@ def C20(prog: Program, run: Run, tier: str) -> None:
     run.add(_fwd(prog, {"math"}), FWD_DESC)
     run.floor("R-ROUND|", 6)
     run.floor("R-AXIS|", 25)
+
+
+# ---------------------------------------------------------------------------------------------
+# generic slip rules (R-DUP, R-TRUTHY) over the modules each property is anchored in
+# ---------------------------------------------------------------------------------------------
+GENERIC_DESC = (
+    "R-DUP no boolean operator / comparison / if-elif chain / conditional expression repeats an operand (the second copy "
+    "was meant to test something else); R-TRUTHY no optional-number parameter is tested by truth value (0 is a value, not None)"
+)
+
+
+def _anchored_modules() -> dict:
+    import json
+    from pathlib import Path
+
+    out = {}
+    for line in (Path(__file__).resolve().parent.parent / "properties.jsonl").read_text().splitlines():
+        if not line.strip():
+            continue
+        d = json.loads(line)
+        mods = set()
+        for f in d["anchors"]["files"]:
+            rel = f[len("odc/geo/"):] if f.startswith("odc/geo/") else f
+            mods.add(rel[:-3].replace("/", "."))
+        out[d["id"]] = mods
+    return out
+
+
+ANCHORED = _anchored_modules()
+
+
+def _with_generic(pid, fn):
+    def wrapped(prog: Program, run: Run, tier: str) -> None:
+        fn(prog, run, tier)
+        mods = {m for m in ANCHORED.get(pid, set()) if m in prog.modules}
+        run.add(generic.rule_dup(prog, mods) + generic.rule_truthy(prog, mods), GENERIC_DESC)
+
+    wrapped.__name__ = pid
+    wrapped.__doc__ = fn.__doc__
+    return wrapped
+
+
+for _i in range(1, 21):
+    _pid = f"C{_i:02d}"
+    globals()[_pid] = _with_generic(_pid, globals()[_pid])
